@@ -25,6 +25,11 @@ def r1_ownership(ctx, sym):
                 n += 1
                 f = enclosing_function(node)
                 q = getattr(f, '_qualname', '<module>')
+                if m.name == FEEDBACK and q.startswith('Feedback.') and q.count('.') == 1:
+                    # a private helper with a single caller is attributed to that caller (extracted helpers)
+                    from ..astutil import root_caller
+                    q = 'Feedback.' + root_caller(m.cls('Feedback'), q.split('.', 1)[1],
+                                                  anchors=('_handle_condition', '__init__'))
                 ctx.check(m.name == FEEDBACK and q == 'Feedback._handle_condition', 'R1',
                           'caller:%s@%s:%s' % (node.func.attr, m.name.split('.', 1)[-1], q), m, node,
                           "%s is called from %s; only Feedback._handle_condition may record a feedback" % (
@@ -348,59 +353,136 @@ def r6_formatter_dispatch(ctx, sym):
 
 
 def r7_overrides(ctx, sym):
-    ctx.rule('R7', "Feedback.override backs a class attribute up before setattr and registers the class with the "
-                   "report; Report.clear() restores every registered class; the lazily created backup dict is tested "
-                   "on the class's own namespace (an inherited `cls.X is None` read aliases one dict across the "
-                   "hierarchy)")
+    ctx.rule('R7', "Feedback.override / _restore_overrides / Report.override_feedback / clear_overridden_feedback, "
+                   "executed abstractly on a model class hierarchy (base class, subclass inheriting the attribute) "
+                   "for every short sequence of override calls followed by clear: afterwards every class attribute "
+                   "reads as it did before the first override, nothing stays registered, and Report.clear() performs "
+                   "the restoration")
+    from ..fdeval import ClassObj, module_resolver
+    from .. import symexec
     mod = ctx.repo.module(FEEDBACK)
+    rmod = ctx.repo.module(REPORT)
     ov = mod.func('Feedback.override')
     ro = mod.func('Feedback._restore_overrides')
-    ctx.analysed_function(mod, ov)
-    ctx.analysed_function(mod, ro)
-    lazy = [n for n in body_walk(ov) if isinstance(n, ast.If) and any(
-        isinstance(s, ast.Assign) and norm(s.targets[0]) == 'cls._override_backups' for s in n.body)]
-    ctx.require(len(lazy) == 1, "Feedback.override no longer creates _override_backups lazily")
-    t = norm(lazy[0].test)
-    own = ("__dict__" in t or "vars(cls)" in t)
-    ctx.check(own, 'R7', 'override:own-namespace', mod, lazy[0],
-              "the lazy creation tests `%s`, an inherited read: once a base class has its dict every subclass shares "
-              "it, so backups of different classes overwrite each other and restore to the wrong class" % t,
-              "FeedbackResponse.override(title='a'); gently.override(title='b'); clear_report() -> gently.title is "
-              "still 'b' for every later grading in the process")
-    # backup precedes setattr
-    loop = [n for n in body_walk(ov) if isinstance(n, ast.For)]
-    ok = len(loop) == 1
-    if ok:
-        body = loop[0].body
-        idx_b = [i for i, s in enumerate(body) if 'cls._override_backups[' in norm(s) and 'getattr(cls' in norm(s)]
-        idx_s = [i for i, s in enumerate(body) if isinstance(s, ast.Expr) and call_name(s.value) == 'setattr']
-        ok = bool(idx_b) and bool(idx_s) and idx_b[0] < idx_s[0]
-        guard = body[idx_b[0]] if idx_b else None
-        ok = ok and isinstance(guard, ast.If) and 'not in cls._override_backups' in norm(guard.test)
-    ctx.check(ok, 'R7', 'override:backup-before-set', mod, ov,
-              "the original value is not saved (once) before the class attribute is replaced",
-              "override() twice then clear(): the first override is restored instead of the original")
-    ctx.check(any(norm(c.func) == 'report.override_feedback' and norm(c.args[0]) == 'cls' for c in calls(ov)),
-              'R7', 'override:registers', mod, ov, "the class is not registered with the report",
-              "clear() never restores this class")
-    # restore
-    ok = any(isinstance(n, ast.For) and 'cls._override_backups.items()' in norm(n.iter) and
-             any(call_name(c) == 'setattr' for c in calls(n)) for n in body_walk(ro))
-    ctx.check(ok, 'R7', '_restore_overrides:restores-all', mod, ro,
-              "_restore_overrides does not setattr every backed-up field", "an overridden attribute survives clear()")
-    rmod = ctx.repo.module(REPORT)
-    clear = rmod.func('Report.clear')
     cof = rmod.func('Report.clear_overridden_feedback')
+    of = rmod.func('Report.override_feedback')
+    for m_, f_ in ((mod, ov), (mod, ro), (rmod, cof), (rmod, of)):
+        ctx.analysed_function(m_, f_)
+    # class-level attributes of Feedback that override touches (e.g. `_override_backups = None`)
+    fb_ci = sym.find_class(FEEDBACK, 'Feedback')
+    base_own = {}
+    for name, expr in fb_ci.attrs.items():
+        if 'override' in name or 'backup' in name:
+            try:
+                base_own[name] = sym.const(mod, expr, scope=fb_ci)
+            except KeyError:
+                base_own[name] = None
+
+    def scenario(steps):
+        root = ClassObj('Feedback', **dict(base_own))
+        root.own['classmethod:override'] = ov
+        root.own['classmethod:_restore_overrides'] = ro
+        base = ClassObj('FeedbackResponse', bases=[root], title='base title', message='base message')
+        sub = ClassObj('gently', bases=[base])
+        other = ClassObj('explain', bases=[base], title='explain title')
+        root.own.setdefault('title', None)
+        root.own.setdefault('message', None)
+        classes = {'base': base, 'sub': sub, 'other': other, 'root': root}
+        before = {k: (c.attrs['title'], c.attrs['message']) for k, c in classes.items()}
+        report = symexec.self_obj(rmod, 'Report', overridden_feedbacks=set())
+        fd = symexec.new_fd(sym, mod)
+        fd.calls['vars'] = lambda c: c.own if isinstance(c, ClassObj) else {}
+
+        def b_getattr(o, name, *default):
+            if name in o.attrs:
+                return o.attrs[name]
+            if default:
+                return default[0]
+            raise Raised('AttributeError', name)
+
+        def b_setattr(o, name, value):
+            o.attrs[name] = value
+        def b_delattr(o, name):
+            if isinstance(o, ClassObj):
+                if name not in o.own:
+                    raise Raised('AttributeError', name)
+                del o.own[name]
+            else:
+                o.attrs.pop(name)
+        fd.calls['getattr'] = b_getattr
+        fd.calls['setattr'] = b_setattr
+        fd.calls['delattr'] = b_delattr
+        fd.calls['hasattr'] = lambda o, name: name in o.attrs
+        try:
+            for who, fields in steps:
+                fd.call_function(ov, [], dict(fields, report=report), bound_self=classes[who])
+            registered = set(report.attrs['overridden_feedbacks'])
+            fd.call_function(cof, [], bound_self=report)
+        except Raised as e:
+            return 'raises %s (%s)' % (e.kind, e.detail), before, None, None
+        except Inconclusive as e:
+            raise AnalysisError("C20 R7: override machinery outside the decidable fragment: %s" % e)
+        after = {k: (c.attrs['title'], c.attrs['message']) for k, c in classes.items()}
+        return after, before, registered, report
+
+    sequences = [
+        [('base', {'title': 'A'})],
+        [('sub', {'title': 'B'})],
+        [('base', {'title': 'A'}), ('sub', {'title': 'B'})],
+        [('sub', {'title': 'B'}), ('base', {'title': 'A'})],
+        [('base', {'title': 'A'}), ('base', {'title': 'A2'})],
+        [('sub', {'title': 'B'}), ('other', {'title': 'C', 'message': 'M'})],
+        [('base', {'title': 'A', 'message': 'M'}), ('other', {'message': 'M2'}), ('sub', {'message': 'M3'})],
+        [('root', {'title': 'R'}), ('sub', {'title': 'B'})],
+    ]
+    for steps in sequences:
+        tag = ';'.join('%s.override(%s)' % (w, ','.join('%s=%r' % kv for kv in f.items())) for w, f in steps)
+        after, before, registered, report = scenario(steps)
+        if isinstance(after, str):
+            ctx.fail('R7', 'override:' + tag, mod, ov, "the sequence %s; clear() %s" % (tag, after),
+                     "FeedbackResponse.override(title='a'); gently.override(title='b'); clear_report()")
+            continue
+        ctx.check(after == before, 'R7', 'override:restores:' + tag, mod, ov,
+                  "after %s and clear() the class attributes read %r, before the first override they read %r (backups "
+                  "of different classes share a dictionary, or the first value is not the one kept)" % (
+                      tag, after, before),
+                  "FeedbackResponse.override(title='a'); gently.override(title='b'); clear_report() -> gently.title is "
+                  "still 'b' for every later grading in the process")
+        ctx.check(registered == {c for c in registered} and len(registered) == len({w for w, _ in steps}) and
+                  not report.attrs['overridden_feedbacks'], 'R7', 'override:registers:' + tag, mod, ov,
+                  "%d class(es) registered for %d overriding class(es); %d left registered after clear" % (
+                      len(registered), len({w for w, _ in steps}), len(report.attrs['overridden_feedbacks'])),
+                  "clear() never restores this class")
+    # Report.clear() performs the restoration unconditionally
+    clear = rmod.func('Report.clear')
     ctx.analysed_function(rmod, clear)
-    ctx.check(any(norm(c.func) == 'self.clear_overridden_feedback' for c in calls(clear)) and
-              not any(isinstance(n, (ast.If, ast.Return, ast.Try)) for n in body_walk(clear)),
-              'R7', 'Report.clear:restores', rmod, clear, "Report.clear() does not restore overridden feedback classes",
+    rec = symexec.Recorder()
+    me = symexec.self_obj(rmod, 'Report')
+    symexec.method(me, 'clear_overridden_feedback', rec.stub('clear_overridden_feedback'))
+    fd = symexec.new_fd(sym, rmod)
+    fd.attr_hook = lambda base, attr: Obj('%r.%s' % (base, attr), __open__=True)
+    try:
+        fd.call_function(clear, [], bound_self=me)
+        done = len(rec.named('clear_overridden_feedback'))
+    except (Raised, Inconclusive):
+        # clear() uses constructs outside the fragment: fall back to a call-presence test on every path
+        from ..astutil import flat_self_calls
+        seq = flat_self_calls(clear.body, rmod.cls('Report'), stop=('clear_overridden_feedback',))
+        done = sum(1 for c in seq if isinstance(c.func, ast.Attribute) and c.func.attr == 'clear_overridden_feedback'
+                   and not any(isinstance(a, (ast.If, ast.Try, ast.While, ast.For)) for a in _ancestors_until(c, clear)))
+    ctx.check(done == 1, 'R7', 'Report.clear:restores', rmod, clear,
+              "Report.clear() does not restore overridden feedback classes (exactly once, unconditionally)",
               "an override made by one instructor script is still active for the next submission")
-    ok = any(isinstance(n, ast.For) and norm(n.iter) == 'self.overridden_feedbacks' and
-             any(isinstance(c.func, ast.Attribute) and c.func.attr == '_restore_overrides' for c in calls(n))
-             for n in body_walk(cof))
-    ctx.check(ok, 'R7', 'clear_overridden_feedback:all-classes', rmod, cof,
-              "not every registered class is restored", "an override survives clear()")
+
+
+def _ancestors_until(node, stop):
+    n = getattr(node, '_parent', None)
+    while n is not None and n is not stop:
+        if isinstance(n, ast.FunctionDef) and n is not stop:
+            # inside a helper: look no further (helpers are flattened by the caller)
+            return
+        yield n
+        n = getattr(n, '_parent', None)
 
 
 def run(ctx):
